@@ -1051,6 +1051,9 @@ fn main() {
         (true, vec!["anything at all, even \"this\""]),
         (false, vec!["測 5", "甲乙 7 ㄘㄜˋ"]),
         (false, vec!["吧 3 ㄅㄚˉ", "爸 4 ㄅㄚˋ"]),
+        // a leaf mixing one-character and longer phrases (F27 length-mismatch): the one arm of the leaf comparator that
+        // differs between the two known versions of TrieBuilder::write (by UTF-8 length / one-character first)
+        (false, vec!["𠀀 1 ㄘㄜˋ", "ab 7 ㄘㄜˋ", "測 2 ㄘㄜˋ", "abc 9 ㄘㄜˋ", "é 3 ㄘㄜˋ", "策略 9 ㄘㄜˋ"]),
         // F18 with a collision: the dump lists a pair twice, the recompiled dictionary merges the two
         (false, vec!["吧 1 ㄅㄚ", "吧 9 ㄅㄚˉ", "試吧 2 ㄕˋ ㄅㄚ", "試吧 3 ㄕˋ ㄅㄚˉ", "爸吧 7 ㄅㄚˋ ㄅㄚˉ", "爸吧 6 ㄅㄚˋ ㄅㄚ"]),
     ];
